@@ -19,7 +19,7 @@ CHECKS = {
         note=LEVEL_NOTE_COMMON + " Theorems exclude NaN priorities (keys form a total order) and need size < 32768.",
     ),
     "C12": dict(
-        technique="Coq proof (invariant on in_graph sets: a skipped push is a rejected push) over the transcribed update kernels, tied to the code by exact differential execution; refutation witness for the pinned variant",
+        technique="(low = high for EVERY thread count: C12_high_eq_low_any_thread_count via the row-ownership argument of C05) Coq proof (invariant on in_graph sets: a skipped push is a rejected push) over the transcribed update kernels, tied to the code by exact differential execution; refutation witness for the pinned variant",
         text=("Theorem C12_high_eq_low (coq/props/C12.v): for every graph of max-heap rows carrying own distances and every list of update "
               "lists with symmetric distances, the high-memory path (in_graph sets) yields exactly the heaps and change count of the "
               "low-memory path; C12_pinned_second_branch_refuted shows by computation that the variant found in the pinned tree does not. "
@@ -83,7 +83,7 @@ CHECKS = {
         note=LEVEL_NOTE_COMMON + " Angular, bit-packed and sparse splits are not modelled concretely (float normalisation): generic builder theorem + per-run proved checkers. recursive_convert is modelled and compared exactly; its general correctness is established per tree by flat_chk, not by a once-for-all proof.",
     ),
     "C02": dict(
-        technique="Coq proof (invariant over the whole search: visited-guarded pushes keep the result heap duplicate-free with true distances; heap-sort read-out; translation lemmas; refutation of plain fancy indexing) over a bit-exact model of the search closure incl. float32 (1+epsilon)*root; exact differential execution of the compiled closure; C02 oracle on query() answers",
+        technique="Coq proof (invariant over the whole search: visited-guarded pushes keep the result heap duplicate-free with true distances; the search always returns - termination by the visited/seed measure; heap-sort read-out; translation lemmas; refutation of plain fancy indexing) over a bit-exact model of the search closure incl. float32 (1+epsilon)*root; exact differential execution of the compiled closure; C02 oracle on query() answers",
         text=("Theorems in coq/props/C02.v: for every search graph, every duplicate-free leaf candidate list, every generator state, k, "
               "n_neighbors and epsilon, the sorted answer of a query has k slots, every filled slot is an in-range point with exactly "
               "d(v,query) < inf, filled slots are pairwise distinct (random seeds included), ascending, unfilled slots are (-1,+inf) and form "
@@ -152,7 +152,7 @@ CHECKS = {
         note=LEVEL_NOTE_COMMON + " The network simplex as an algorithm (pivoting, spanning-tree surgery, termination) is validated per output, not verified; continuity of the LP value in the marginals is not proved.",
     ),
     "C20": dict(
-        technique="Coq proof (rejection sampling returns distinct samples whenever it returns and can never return when more samples are requested than the pool holds; bridging every pair of components connects the graph; sound spanning-tree and symmetry certificates) + exact correspondence of utils.rejection_sample with the extracted model + connect_graph run in a worker process under a per-call watchdog with the extracted certificates deciding symmetry and connectedness of every result",
+        technique="Coq proof (rejection sampling returns distinct samples whenever it returns and can never return when more samples are requested than the pool holds; bridging every pair of components connects the graph; sound spanning-tree and symmetry certificates; termination of the repaired alternating loop relative to an oracle for the searches) + exact correspondence of utils.rejection_sample with the extracted model + connect_graph run in a worker process under a per-call watchdog with the extracted certificates deciding symmetry and connectedness of every result",
         text=("Theorems C20_rejection_sample_distinct / C20_rejection_sample_needs_pool (for every generator state and every fuel), "
               "C20_bridging_every_pair_connects, C20_connectivity_certificate_sound, C20_symmetry_check_sound (coq/props/C20.v). Every run: "
               "rejection_sample compared value-for-value with the extracted model; connect_graph executed on generated multi-component "
@@ -160,7 +160,7 @@ CHECKS = {
               "connect -> update -> connect histories); a call that does not return is killed and reported with its input; results are "
               "checked for containment of the input, cross-component placement and the float64 reference distance of every added edge."),
         design_ref="6.20",
-        note=LEVEL_NOTE_COMMON + " Termination of the alternating restricted searches is observed under the watchdog, not proved; the search closure itself is not modelled.",
+        note=LEVEL_NOTE_COMMON + " The alternating loop's termination is proved for a hand model of the loop (searches and candidate bookkeeping as an oracle over the finite set of pair distances); that each restricted search returns is observed under the watchdog; the search closure itself is not modelled.",
     ),
     "C17": dict(
         technique="Coq proof over a hand-written ownership (alias) model of the API operations: no history over any input configuration writes a caller buffer; the model's alias rules are checked against the implementation after every operation of generated histories (np.shares_memory vs the extracted model's alias bit; byte hashes of every caller array before/after)",
